@@ -1053,8 +1053,14 @@ def diagnose(file, exclude=()):
                     if c["value"] >= (1 << (min(bits, 32) - 1)):
                         why.append("constraint value %d is emitted as an int literal that does not fit the signed "
                                    "%d-bit member" % (c["value"], bits))
-        if info.has_body(d) and not [x for x in info.decls if x.get("parent_id") == did]:
-            why.append("_body_ without children (panic)")
+        if info.has_body(d):
+            kids = [x for x in info.decls if x.get("parent_id") == did]
+            if not kids:
+                why.append("_body_ without children (panic)")
+            elif all(not x.get("constraints") and all(fl["kind"] in ("payload_field", "body_field") for fl in x["fields"])
+                     for x in kids):
+                # packet R{a:8,_body_} packet C:R{_payload_}: same panic ("Packet with _body_ field and no children!")
+                why.append("_body_ whose only children are unconstrained payload-only aliases (panic)")
         out.extend((did, w) for w in why)
     return out
 
